@@ -455,7 +455,7 @@ Definition colstr_ok (v : aval) : bool :=
    magnitude in [1e-4, 1e15) or zero *)
 Fixpoint lead_zeros (s : str) : nat :=
   match s with c :: r => if byte_eqb c "0"%byte then S (lead_zeros r) else O | [] => O end.
-Definition canon_float (tok : str) : bool :=
+Definition canon_fixed (tok : str) : bool :=
   let s := match tok with c :: r => if byte_eqb c "-"%byte then r else tok | [] => [] end in
   match split1 "."%byte s with
   | None => false
@@ -467,6 +467,32 @@ Definition canon_float (tok : str) : bool :=
       && (negb (str_eqb a (bs "0"%bs)) || str_eqb b (bs "0"%bs) || Nat.leb (lead_zeros b) 3)
       && negb (str_eqb tok (bs "-0.0"%bs))       (* -0.0 == 0.0 in Python although the literals differ *)
   end.
+(* the exponent form of repr(float), used below 1e-4 and from 1e16 on: d[.ddd]e-XX / e+XX, no redundant zeros, exponent with at
+   least two digits, at most 15 significant digits *)
+Definition last_nonzero (b : str) : bool := negb (match rev b with c :: _ => byte_eqb c "0"%byte | [] => true end).
+Definition canon_exp (tok : str) : bool :=
+  let s := match tok with c :: r => if byte_eqb c "-"%byte then r else tok | [] => [] end in
+  match split1 "e"%byte s with
+  | None => false
+  | Some (m, e) =>
+      match split1 "."%byte m with
+      | None => Nat.eqb (length m) 1 && all_digits m && negb (str_eqb m (bs "0"%bs))
+      | Some (a, b) => Nat.eqb (length a) 1 && all_digits a && negb (str_eqb a (bs "0"%bs)) && all_digits b && last_nonzero b
+      end
+      && Nat.leb (length m) 16
+      && match e with
+         | sg :: ds =>
+             all_digits ds
+             && match Z_of_dec ds with
+                | Some z => str_eqb ds (if Z.ltb z 10 then "0"%byte :: dec_of_Z z else dec_of_Z z)
+                            && (if byte_eqb sg "-"%byte then Z.leb 5 z && Z.leb z 300
+                                else byte_eqb sg "+"%byte && Z.leb 16 z && Z.leb z 300)
+                | None => false
+                end
+         | [] => false
+         end
+  end.
+Definition canon_float (tok : str) : bool := canon_fixed tok || canon_exp tok.
 Definition type_char_ok (c : byte) : bool :=
   let n := bcode c in
   (N.leb 48 n && N.leb n 58) || (N.leb 65 n && N.leb n 90) || (N.leb 97 n && N.leb n 122)
